@@ -50,7 +50,7 @@ def corpus_lines(limit, seed):
     return lines[:limit], len(lines)
 
 
-FAMILY_FILES = ['harness/lexfam.py', 'harness/lexrun.py', 'harness/tagfam.py', 'spec/Lexer.tla', 'spec/LexerOps.tla', 'spec/LexerImpl.tla', 'spec/LexerTrace.tla', 'spec/LexerTrace.cfg', 'spec/MC_Lexer_quick.cfg', 'spec/MC_Lexer_thorough.cfg']
+FAMILY_FILES = ['harness/lexfam.py', 'harness/lexrun.py', 'harness/tagfam.py', 'spec/Lexer.tla', 'spec/LexerOps.tla', 'spec/LexerImpl.tla', 'spec/LexerTrace.tla', 'spec/LexerTrace.cfg', 'spec/MC_Lexer_quick.cfg', 'spec/MC_Lexer_thorough.cfg', 'spec/Mutant_Lexer_PipeNotDelimiter.cfg']
 
 
 def collect(tier):
@@ -76,6 +76,10 @@ def _collect(tier):
     cfg = "MC_Lexer_quick.cfg" if tier == "quick" else "MC_Lexer_thorough.cfg"
     res = tlc.model_check("LexerImpl", cfg, workers=16, timeout=3000, heap="16g", extra=("-maxSetSize", "100000000"))
     design = [{"module": "LexerImpl", "cfg": cfg, "ok": res.ok, "states": res.states, "distinct": res.distinct, "error": res.error[:400], "wall": round(res.wall, 1)}]
+    # vacuity guard of C05_DelimitersSeparate: the tokenizer as it was before '|' became a delimiter must fail it
+    mres = tlc.model_check("LexerImpl", "Mutant_Lexer_PipeNotDelimiter.cfg", workers=8, timeout=900)
+    design.append({"module": "LexerImpl", "cfg": "Mutant_Lexer_PipeNotDelimiter.cfg", "ok": "Invariant C05_DelimitersSeparate is violated" in mres.out, "states": mres.states, "distinct": mres.distinct,
+                   "error": mres.error[:200], "expect": "C05_DelimitersSeparate violated", "wall": round(mres.wall, 1)})
     t1 = time.time()
     maxlen = 4
     nsh = 16
@@ -115,7 +119,7 @@ def _collect(tier):
             if clause.startswith("DRIFT"):
                 stats["drift"] += 1
                 continue
-            findings.append({"property": "C04", "clause": clause, "rule": "", "input": "string:" + json.dumps(x.get("text", x["input"])), "config": "lexer",
+            findings.append({"property": clause.split("_")[0], "clause": clause, "rule": "", "input": "string:" + json.dumps(x.get("text", x["input"])), "config": "lexer",
                              "detail": {"pass": k, "input": x.get("text", x["input"]), "passes": x["passes"], "final": x["final"]}})
     stats["wall"] = {"design": round(t1 - t0, 1), "drivers": round(t2 - t1, 1), "tlc": round(time.time() - t2, 1)}
     shutil.rmtree(wd, ignore_errors=True)
@@ -159,7 +163,7 @@ def check(prop, tier):
         "samples": r["samples"],
         "evaluations": st["tlc_states"] + fst["traces"],
         "distinct_nontrivial": st["exhaustive_strings"] + st["random_strings"] + st["corpus_lines"],
-        "rule": "lexer: every string of length <= %d over the 21-class alphabet (exhaustive), seeded random strings of length 5..60 over the delimiter alphabet, "
+        "rule": "lexer: every string of length <= %d over the 23-class alphabet (exhaustive), seeded random strings of length 5..60 over the delimiter alphabet, "
                 "distinct corpus lines; each run through the real tokens.create with every pass recorded; non-trivial = all (each is a distinct string). "
                 "parse/emit + clean-file clauses: one traced run per (file, configuration) of the fix family" % r["maxlen"],
         "exhaustive": True,
